@@ -3000,7 +3000,8 @@ func c13DefaultOnlyForEmpty(c *Ctx) {
 // the compiling function returns is, whenever the compilation itself reported none, the result of a function of the module
 // that is handed the very text that was compiled; (b) SSA: that function parses the text (ast.ParseModule) and visits both
 // the expressions and the terms of the parsed module (a call is an expression when it is a statement and a term when it is
-// an operand or a with-value); (c) it compares what it finds with the same deny-list the compiler is given.
+// an operand, a with-value or part of a with-target), starting from the whole parsed module; (c) it compares what it finds
+// with the same deny-list the compiler is given.
 func c08WrittenModuleSearched(c *Ctx) {
 	r, p := c.R, c.P
 	r.Rule("C08.B9", "after a successful compilation the module as written is searched for calls of the denied built-ins, and the outcome is the error that is returned", 1)
@@ -3105,11 +3106,13 @@ func c08WrittenModuleSearched(c *Ctx) {
 			calls := map[string]bool{}
 			globals := map[string]bool{}
 			seenFn := map[*ssa.Function]bool{}
+			visited := map[*ssa.Function]bool{}
 			var visit func(f *ssa.Function, depth int)
 			visit = func(f *ssa.Function, depth int) {
 				if f == nil || depth > 5 {
 					return
 				}
+				visited[f] = true
 				for _, b := range f.Blocks {
 					for _, ins := range b.Instrs {
 						if ci, ok := ins.(ssa.CallInstruction); ok {
@@ -3165,10 +3168,145 @@ func c08WrittenModuleSearched(c *Ctx) {
 			if denyList == "" || !globals[denyList] {
 				missing = append(missing, "it does not consult the deny-list the compiler is given")
 			}
+			// the search starts from the whole module: some visitor is handed the value ast.ParseModule returned
+			whole := false
+			for g := range visited {
+				for _, b := range g.Blocks {
+					for _, ins := range b.Instrs {
+						ci, ok := ins.(ssa.CallInstruction)
+						if !ok || len(ci.Common().Args) < 1 {
+							continue
+						}
+						n := funcFullName(ssaCalleeObj(ci))
+						if n != opaPath+"/ast.WalkExprs" && n != opaPath+"/ast.WalkTerms" && n != opaPath+"/ast.WalkNodes" {
+							continue
+						}
+						if parsedModule(ci.Common().Args[0], 0) {
+							whole = true
+						}
+					}
+				}
+			}
+			// the with-modifiers of every expression are looked at: in some visitor the field With of the visited expression
+			// is read on every path through the visitor (not only for expressions that pass a test, e.g. "is a print call")
+			everyExpr := false
+			for g := range visited {
+				for _, b := range g.Blocks {
+					for _, ins := range b.Instrs {
+						fa, ok := ins.(*ssa.FieldAddr)
+						if !ok {
+							continue
+						}
+						pt, ok := fa.X.Type().Underlying().(*types.Pointer)
+						if !ok {
+							continue
+						}
+						st, ok := pt.Elem().Underlying().(*types.Struct)
+						if !ok || fa.Field >= st.NumFields() || st.Field(fa.Field).Name() != "With" || typeName(pt.Elem()) != "Expr" {
+							continue
+						}
+						if onEveryPath(g, b) {
+							everyExpr = true
+						}
+					}
+				}
+			}
+			if !everyExpr {
+				missing = append(missing, "the with-modifiers are only looked at for some expressions (under a test on the expression): a with-target with a call on any other expression passes")
+			}
+			if !whole {
+				missing = append(missing, "no visitor is handed the whole parsed module (a visit of the first bodies of the rules misses else branches and comprehensions in heads)")
+			}
 			r.Check(len(missing) == 0, "C08.B9", key, p.Pos(fd.Pos()), "on success the error is "+searcher+"(the compiled text), which parses it and visits expressions and terms against "+denyList, searcher+" is consulted after the compilation, but "+strings.Join(missing, "; "))
 		}
 	}
 	if n == 0 {
 		r.Unknown("C08.B9", "compile-site", "", "no function that prepares a policy for evaluation was found")
 	}
+}
+
+// parsedModule: the value is what ast.ParseModule returned (possibly through an interface conversion, a local or a
+// free variable of a closure).
+func parsedModule(v ssa.Value, depth int) bool {
+	if depth > 6 {
+		return false
+	}
+	switch x := v.(type) {
+	case *ssa.MakeInterface:
+		return parsedModule(x.X, depth+1)
+	case *ssa.ChangeInterface:
+		return parsedModule(x.X, depth+1)
+	case *ssa.Extract:
+		if call, ok := x.Tuple.(*ssa.Call); ok && x.Index == 0 {
+			n := funcFullName(ssaCalleeObj(call))
+			return n == opaPath+"/ast.ParseModule" || n == opaPath+"/ast.ParseModuleWithOpts"
+		}
+	case *ssa.Phi:
+		for _, e := range x.Edges {
+			if parsedModule(e, depth+1) {
+				return true
+			}
+		}
+	case *ssa.UnOp:
+		if x.Op == token.MUL {
+			// a local or captured cell: what is stored into it
+			switch cell := x.X.(type) {
+			case *ssa.Alloc:
+				for _, ref := range nonDebugRefs(cell) {
+					if st, ok := ref.(*ssa.Store); ok && st.Addr == ssa.Value(cell) && parsedModule(st.Val, depth+1) {
+						return true
+					}
+				}
+			case *ssa.FreeVar:
+				if fn := cell.Parent(); fn != nil && fn.Parent() != nil {
+					for i, fv := range fn.FreeVars {
+						if fv != cell {
+							continue
+						}
+						for _, b := range fn.Parent().Blocks {
+							for _, ins := range b.Instrs {
+								if mc, ok := ins.(*ssa.MakeClosure); ok && mc.Fn == ssa.Value(fn) && i < len(mc.Bindings) {
+									if al, ok := mc.Bindings[i].(*ssa.Alloc); ok {
+										for _, ref := range nonDebugRefs(al) {
+											if st, ok := ref.(*ssa.Store); ok && st.Addr == ssa.Value(al) && parsedModule(st.Val, depth+1) {
+												return true
+											}
+										}
+									}
+								}
+							}
+						}
+					}
+				}
+			}
+		}
+	}
+	return false
+}
+
+// onEveryPath: every path from the function's entry to a return passes through block b.
+func onEveryPath(fn *ssa.Function, b *ssa.BasicBlock) bool {
+	if len(fn.Blocks) == 0 {
+		return false
+	}
+	seen := map[*ssa.BasicBlock]bool{}
+	var dfs func(x *ssa.BasicBlock) bool // a return is reachable from x without passing through b
+	dfs = func(x *ssa.BasicBlock) bool {
+		if x == b || seen[x] {
+			return false
+		}
+		seen[x] = true
+		if len(x.Instrs) > 0 {
+			if _, isRet := x.Instrs[len(x.Instrs)-1].(*ssa.Return); isRet {
+				return true
+			}
+		}
+		for _, sc := range x.Succs {
+			if dfs(sc) {
+				return true
+			}
+		}
+		return false
+	}
+	return !dfs(fn.Blocks[0])
 }
